@@ -86,9 +86,14 @@ type Endpoint struct {
 	ReadPolicy int
 	// Users are the ids of the tasks that performed I/O on this end.
 	Users []string
+	// FirstIOSeq is the kernel sequence number of the first read or write on this end (0 = none).
+	FirstIOSeq uint64
 }
 
 func (e *Endpoint) noteUser(t *Task) {
+	if e.FirstIOSeq == 0 {
+		e.FirstIOSeq = t.k.step
+	}
 	for _, u := range e.Users {
 		if u == t.id {
 			return
